@@ -59,6 +59,7 @@ inductive Err
   | notEnoughAccounts       -- ErrorCode::AdvanceError         = Custom(9004) (decode ran out of accounts)
   | createAttempted         -- `Init` reached the account creation (a CPI; outside C09)
   | panicked                -- the code panics (slice index)
+  | invalidArgument         -- ProgramError::InvalidArgument (validate-arg list of the wrong length)
 deriving Repr, DecidableEq
 
 /-- A program account type: the declaring program's id, the discriminant as bytes
